@@ -100,11 +100,37 @@ def _bare_return(st: ast.stmt) -> bool:
     return isinstance(st, ast.Return) and (st.value is None or (isinstance(st.value, ast.Constant) and st.value.value is None))
 
 
+def _some_leaf_exits(st: ast.If) -> bool:
+    for br in (st.body, st.orelse):
+        if br and (_is_exit(br[-1]) or (isinstance(br[-1], ast.If) and _some_leaf_exits(br[-1]))):
+            return True
+    return False
+
+
+def _fall_through_leaves(st: ast.If) -> list[list[ast.stmt]]:
+    """The statement lists at which control leaves the if-tree by falling through (an empty else branch is created)."""
+    out: list[list[ast.stmt]] = []
+    for field in ("body", "orelse"):
+        br = getattr(st, field)
+        if not br:
+            out.append(br)          # the (empty) list object itself: extending it creates the else branch
+        elif _always_exits(br):
+            continue
+        elif isinstance(br[-1], ast.If) and _some_leaf_exits(br[-1]):
+            out.extend(_fall_through_leaves(br[-1]))
+        else:
+            out.append(br)
+    return out
+
+
 # ---------------------------------------------------------------------------------------------------------- P2
-def _guard_clauses(block: list[ast.stmt], tail: bool, in_loop: bool) -> list[ast.stmt]:
-    """Rewrite one statement list (recursively).  `tail`: the block is in tail position of a function body."""
+def _guard_clauses(block: list[ast.stmt], tail: bool, in_loop: bool, loop_tail: bool = False) -> list[ast.stmt]:
+    """Rewrite one statement list (recursively).  `tail`: the block is in tail position of a function body; `loop_tail`: the
+    block is in tail position of a loop body (falling off its end and `continue` are the same thing there)."""
     out: list[ast.stmt] = []
     i = 0
+    if loop_tail and block and isinstance(block[-1], ast.Continue):
+        block = block[:-1] or [ast.copy_location(ast.Pass(), block[-1])]
     while i < len(block):
         st = block[i]
         rest = block[i + 1:]
@@ -116,8 +142,35 @@ def _guard_clauses(block: list[ast.stmt], tail: bool, in_loop: bool) -> list[ast
                 block = block[:i + 1]
                 rest = []
                 is_last = True
-            st.body = _guard_clauses(st.body, tail and is_last, in_loop)
-            st.orelse = _guard_clauses(st.orelse, tail and is_last, in_loop)
+            elif loop_tail and not st.orelse and rest and st.body and isinstance(st.body[-1], ast.Continue) \
+                    and not any(isinstance(x, (ast.Continue, ast.Break)) for b in st.body[:-1] for x in ast.walk(b)):
+                # `if C: A; continue` in tail position of a loop body: the rest of the body is the else branch
+                st.orelse = rest
+                block = block[:i + 1]
+                rest = []
+                is_last = True
+            elif rest and st.orelse and _always_exits(st.orelse) and not _always_exits(st.body):
+                # `if C: A else: exit` - the rest of the block belongs to the branch that falls through
+                st.body = list(st.body) + rest
+                block = block[:i + 1]
+                rest = []
+                is_last = True
+            elif rest and st.orelse and _always_exits(st.body) and not _always_exits(st.orelse):
+                st.orelse = list(st.orelse) + rest
+                block = block[:i + 1]
+                rest = []
+                is_last = True
+            elif rest and _some_leaf_exits(st) and not _always_exits([st]) and sum(1 for r_ in rest for _ in ast.walk(r_)) <= 120:
+                # an exit on SOME path through the if-tree: the rest is duplicated into the leaves that fall through, so that the
+                # guard stack of every statement is its path condition
+                leaves = _fall_through_leaves(st)
+                for k_, lf in enumerate(leaves):
+                    lf.extend(rest if k_ == 0 else [_clone(r_) for r_ in rest])
+                block = block[:i + 1]
+                rest = []
+                is_last = True
+            st.body = _guard_clauses(st.body, tail and is_last, in_loop, loop_tail and is_last)
+            st.orelse = _guard_clauses(st.orelse, tail and is_last, in_loop, loop_tail and is_last)
             pos = _negative(st.test)
             if pos is not None and st.orelse and not (len(st.orelse) == 1 and isinstance(st.orelse[0], ast.If) and False):
                 st.test, st.body, st.orelse = pos, st.orelse, st.body
@@ -132,7 +185,7 @@ def _guard_clauses(block: list[ast.stmt], tail: bool, in_loop: bool) -> list[ast
                     # `not not X` cannot arise: st.test is positive here, so the new test is `not X`
             out.append(st)
         elif isinstance(st, (ast.For, ast.AsyncFor, ast.While)):
-            st.body = _guard_clauses(st.body, False, True)
+            st.body = _guard_clauses(st.body, False, True, True)
             st.orelse = _guard_clauses(st.orelse, False, in_loop)
             out.append(st)
         elif isinstance(st, (ast.With, ast.AsyncWith)):
@@ -363,7 +416,24 @@ def _ifelse_temp_to_expr(fn: T.Any) -> None:
 
 
 def _collapse_generated_temps(fn: T.Any) -> None:
-    """`x__helperN = E` directly followed by `t = x__helperN` (the temporary the inliner made, used once)  ->  `t = E`."""
+    """`x__helperN = E` directly followed by `t = x__helperN` (the temporary the inliner made, used once)  ->  `t = E`;
+    a generated temporary that is a plain copy of a single-assignment local is replaced by that local."""
+    stores: dict[str, list[ast.AST]] = {}
+    for n in _own_nodes(fn):
+        if isinstance(n, ast.Name) and isinstance(n.ctx, (ast.Store, ast.Del)):
+            stores.setdefault(n.id, []).append(n)
+    params = {a.arg for a in fn.args.args + fn.args.kwonlyargs}
+    for b in list(_blocks(fn)):
+        for st in list(b):
+            if isinstance(st, ast.Assign) and len(st.targets) == 1 and isinstance(st.targets[0], ast.Name) and "__v" in st.targets[0].id and isinstance(st.value, ast.Name):
+                t, src = st.targets[0].id, st.value.id
+                if len(stores.get(t, [])) == 1 and len(stores.get(src, [])) == 1 and src not in params:
+                    for n in _own_nodes(fn):
+                        if isinstance(n, ast.Name) and n.id == t and isinstance(n.ctx, ast.Load):
+                            n.id = src
+                    b.remove(st)
+                    if not b:
+                        b.append(ast.copy_location(ast.Pass(), st))
     loads: dict[str, int] = {}
     for n in _own_nodes(fn):
         if isinstance(n, ast.Name) and isinstance(n.ctx, ast.Load):
@@ -510,6 +580,70 @@ def _stmt_key(st: ast.stmt) -> str:
     return _norm(st)
 
 
+def _distribute_tuple_local(fn: T.Any) -> None:
+    """`if C: t = (a1, a2) else: t = (b1, b2)` followed by `x, y = t` (t used nowhere else)
+         ->  `if C: x = a1; y = a2 else: x = b1; y = b2`   (no value reads one of the targets)."""
+    own = list(_own_nodes(fn))
+    for b in list(_blocks(fn)):
+        i = 0
+        while i + 1 < len(b):
+            tree, un = b[i], b[i + 1]
+            if isinstance(tree, ast.If) and isinstance(un, ast.Assign) and len(un.targets) == 1 and isinstance(un.targets[0], ast.Tuple) and isinstance(un.value, ast.Name):
+                t = un.value.id
+                tg = un.targets[0].elts
+                uses = [n for n in own if isinstance(n, ast.Name) and n.id == t]
+                leaves = _leaves(tree)
+                if leaves and all(lf and isinstance(lf[-1], ast.Assign) and len(lf[-1].targets) == 1 and isinstance(lf[-1].targets[0], ast.Name) and lf[-1].targets[0].id == t
+                                  and isinstance(lf[-1].value, ast.Tuple) and len(lf[-1].value.elts) == len(tg) for lf in leaves) and len(uses) == len(leaves) + 1:
+                    tnames = {_norm(x) for x in tg}
+                    if not any(_norm(y) in tnames for lf in leaves for e in lf[-1].value.elts for y in ast.walk(e) if isinstance(y, (ast.Name, ast.Attribute))):
+                        for lf in leaves:
+                            last = lf[-1]
+                            lf[-1:] = [ast.fix_missing_locations(ast.copy_location(ast.Assign(targets=[_clone(x)], value=e), last)) for x, e in zip(tg, last.value.elts)]
+                        del b[i + 1]
+                        own = list(_own_nodes(fn))
+                        continue
+            i += 1
+
+
+def _hoist_common_tail_return(fn: T.Any) -> None:
+    """`if C: A; return x else: B; return x` as the last statement of a function  ->  `if C: A else: B` + `return x`
+    (x a plain name / constant: evaluating it later changes nothing)."""
+    for _ in range(4):
+        if not fn.body or not isinstance(fn.body[-1], ast.If):
+            return
+        st = fn.body[-1]
+        if not (st.body and st.orelse and isinstance(st.body[-1], ast.Return) and isinstance(st.orelse[-1], ast.Return)):
+            return
+        a, b = st.body[-1], st.orelse[-1]
+        if a.value is None or not isinstance(a.value, (ast.Name, ast.Constant)) or b.value is None or ast.dump(a.value) != ast.dump(b.value):
+            return
+        st.body, st.orelse = st.body[:-1], st.orelse[:-1]
+        if not st.body and not st.orelse:
+            fn.body[-1:] = [a]
+            return
+        if not st.body:
+            st.test = ast.copy_location(ast.UnaryOp(op=ast.Not(), operand=st.test), st.test)
+            st.body, st.orelse = st.orelse, []
+        fn.body.append(a)
+        fn.body[:] = _guard_clauses(fn.body, True, False)
+
+
+def _merge_identical_branches(fn: T.Any) -> None:
+    """`if A: S elif B: S [else: R]`  ->  `if A or B: S [else: R]`  (same statements, side-effect free tests)."""
+    changed = True
+    while changed:
+        changed = False
+        for n in list(_own_nodes(fn)):
+            if isinstance(n, ast.If) and len(n.orelse) == 1 and isinstance(n.orelse[0], ast.If):
+                m = n.orelse[0]
+                if [ast.dump(x) for x in n.body] == [ast.dump(x) for x in m.body] and _query(n.test) and _query(m.test):
+                    n.test = ast.copy_location(ast.BoolOp(op=ast.Or(), values=[n.test, m.test]), n.test)
+                    n.orelse = m.orelse
+                    changed = True
+                    break
+
+
 def _return_in_loop_to_break(fn: T.Any) -> None:
     """`while True: ...; if C: return X; ...` as the LAST statement of a function, with that single return and no break
           ->  `while True: ...; if C: break; ...` followed by `return X`."""
@@ -567,6 +701,280 @@ def _rotate_priming(block: list[ast.stmt]) -> None:
         i += 1
 
 
+def _fuse_comprehensions(fn: T.Any) -> None:
+    """`t = [F(y) for y in L if Q(y)]` used only as the iterable of other comprehensions `[E(x) for x in t if P(x)]`
+       ->  `[E(F(y)) for y in L if Q(y) and P(F(y))]`   (all parts side-effect free; `t` disappears)."""
+    own = list(_own_nodes(fn))
+    stores: dict[str, int] = {}
+    for n in own:
+        if isinstance(n, ast.Name) and isinstance(n.ctx, (ast.Store, ast.Del)):
+            stores[n.id] = stores.get(n.id, 0) + 1
+    params = {a.arg for a in fn.args.args + fn.args.kwonlyargs}
+    for b in list(_blocks(fn)):
+        for st in list(b):
+            if not (isinstance(st, ast.Assign) and len(st.targets) == 1 and isinstance(st.targets[0], ast.Name) and isinstance(st.value, ast.ListComp)):
+                continue
+            t, comp = st.targets[0].id, st.value
+            if stores.get(t, 0) != 1 or t in params or len(comp.generators) != 1 or comp.generators[0].is_async or not _pure(comp):
+                continue
+            g = comp.generators[0]
+            pat_vars = {x.id for x in ast.walk(g.target) if isinstance(x, ast.Name)}
+            uses = [n for n in own if isinstance(n, ast.Name) and n.id == t and isinstance(n.ctx, ast.Load)]
+            hosts = []
+            ok = bool(uses)
+            for u in uses:
+                host = next((c for c in own if isinstance(c, (ast.ListComp, ast.GeneratorExp, ast.SetComp)) and len(c.generators) == 1 and c.generators[0].iter is u), None)
+                if host is None or not _pure(host):
+                    ok = False
+                    break
+                g2 = host.generators[0]
+                # the inner element must destructure the same way as the outer pattern
+                if isinstance(g2.target, ast.Name):
+                    m = {g2.target.id: comp.elt}
+                elif isinstance(g2.target, ast.Tuple) and isinstance(comp.elt, ast.Tuple) and len(g2.target.elts) == len(comp.elt.elts) and all(isinstance(x, ast.Name) for x in g2.target.elts):
+                    m = {x.id: e for x, e in zip(g2.target.elts, comp.elt.elts)}
+                else:
+                    ok = False
+                    break
+                free = {x.id for part in [host.elt] + list(g2.ifs) for x in ast.walk(part) if isinstance(x, ast.Name)} - set(m)
+                if free & pat_vars:
+                    ok = False
+                    break
+                hosts.append((host, m))
+            if not ok:
+                continue
+            for host, m in hosts:
+                class S_(ast.NodeTransformer):
+                    def visit_Name(self, n: ast.Name) -> ast.AST:
+                        if isinstance(n.ctx, ast.Load) and n.id in m:
+                            return _clone(m[n.id])
+                        return n
+                g2 = host.generators[0]
+                host.elt = S_().visit(host.elt)
+                new_ifs = [_clone(c) for c in g.ifs] + [S_().visit(c) for c in g2.ifs]
+                host.generators = [ast.comprehension(target=_clone(g.target), iter=_clone(g.iter), ifs=new_ifs, is_async=0)]
+                ast.fix_missing_locations(host)
+            b.remove(st)
+            if not b:
+                b.append(ast.copy_location(ast.Pass(), st))
+            own = list(_own_nodes(fn))
+
+
+def _query(e: ast.AST) -> bool:
+    """Side-effect free test: `_pure`, also allowing the repo's query methods (is_* / has_* / can_*)."""
+    for n in ast.walk(e):
+        if isinstance(n, (ast.Await, ast.Yield, ast.YieldFrom, ast.NamedExpr, ast.Lambda)):
+            return False
+        if isinstance(n, ast.Call):
+            f = n.func
+            ok = isinstance(f, ast.Attribute) and (f.attr.startswith(("is_", "has_", "can_")) or f.attr in ("lower", "upper", "decode", "encode", "strip", "startswith", "endswith", "get", "items", "keys", "values")) \
+                or isinstance(f, ast.Name) and f.id in ("len", "min", "max", "bytes", "str", "int", "isinstance", "tuple", "list", "set")
+            if not ok:
+                return False
+    return True
+
+
+def _search_loops(fn: T.Any) -> None:
+    """First-match search loop  ->  filter-then-first (the form the repository uses):
+         for x in L:                      found = [x for x in L if P(x)]
+             if P(x):                     if found:
+                 S; break          ==>        x = found[0]; S
+         else:                            else:
+             E                                E
+    Exact when P is a side-effect free query (it is then irrelevant that the comprehension also tests the elements after the
+    first match) and the loop body is this single `if`."""
+    used = {n.id for n in ast.walk(fn) if isinstance(n, ast.Name)}
+    serial = [0]
+    for b in list(_blocks(fn)):
+        i = 0
+        while i < len(b):
+            lp = b[i]
+            if isinstance(lp, ast.For) and isinstance(lp.target, ast.Name) and len(lp.body) == 1 and isinstance(lp.body[0], ast.If) and not lp.body[0].orelse \
+                    and lp.body[0].body and isinstance(lp.body[0].body[-1], ast.Break) and _query(lp.body[0].test) and _query(lp.iter):
+                inner = lp.body[0].body[:-1]
+                if not any(isinstance(x, (ast.Break, ast.Continue)) for st in inner for x in ast.walk(st)):
+                    serial[0] += 1
+                    name = f"{lp.target.id}s__found{serial[0]}"
+                    while name in used:
+                        serial[0] += 1
+                        name = f"{lp.target.id}s__found{serial[0]}"
+                    used.add(name)
+                    comp = ast.ListComp(elt=ast.Name(id=lp.target.id, ctx=ast.Load()), generators=[ast.comprehension(target=_clone(lp.target), iter=lp.iter, ifs=[lp.body[0].test], is_async=0)])
+                    a = ast.copy_location(ast.Assign(targets=[ast.Name(id=name, ctx=ast.Store())], value=comp), lp)
+                    first = ast.copy_location(ast.Assign(targets=[ast.Name(id=lp.target.id, ctx=ast.Store())],
+                                                         value=ast.Subscript(value=ast.Name(id=name, ctx=ast.Load()), slice=ast.Constant(value=0), ctx=ast.Load())), lp)
+                    branch = ast.copy_location(ast.If(test=ast.Name(id=name, ctx=ast.Load()), body=[first] + inner, orelse=list(lp.orelse)), lp)
+                    ast.fix_missing_locations(a)
+                    ast.fix_missing_locations(branch)
+                    b[i:i + 1] = [a, branch]
+                    i += 2
+                    continue
+            i += 1
+
+
+def _none_test(test: ast.expr) -> tuple[ast.expr, bool] | None:
+    """(`X`, True) for `X is None`, (`X`, False) for `X is not None`."""
+    if isinstance(test, ast.Compare) and len(test.ops) == 1 and isinstance(test.ops[0], (ast.Is, ast.IsNot)) \
+            and isinstance(test.comparators[0], ast.Constant) and test.comparators[0].value is None:
+        return test.left, isinstance(test.ops[0], ast.Is)
+    return None
+
+
+_NONNULL_FIELDS: dict[int, set[str]] = {}       # id(function) -> fields of its class that are bound once, in __init__, to a value that cannot be None
+
+
+def _nonnull_expr(e: ast.AST, fn: T.Any, nonnull_methods: set[str], depth: int = 0) -> bool:
+    """The expression cannot be None: a constructor call (CamelCase callee), a method of the class whose return annotation does
+    not admit None, the first element of a filtered copy of one of the object's lists, or a local bound only to such values."""
+    if depth > 3:
+        return False
+    if isinstance(e, ast.Call):
+        f = e.func
+        name = f.id if isinstance(f, ast.Name) else f.attr if isinstance(f, ast.Attribute) else ""
+        if name[:1].isupper() and not name.isupper():
+            return True
+        return isinstance(f, ast.Attribute) and isinstance(f.value, ast.Name) and f.value.id == "self" and name in nonnull_methods
+    if isinstance(e, ast.Subscript) and isinstance(e.slice, ast.Constant) and isinstance(e.slice.value, int) and isinstance(e.value, ast.Name):
+        defs = [n for n in _own_nodes(fn) if isinstance(n, ast.Assign) and len(n.targets) == 1 and isinstance(n.targets[0], ast.Name) and n.targets[0].id == e.value.id]
+        def pool_list(x: ast.AST) -> bool:
+            if isinstance(x, ast.Call) and isinstance(x.func, ast.Name) and x.func.id == "list" and len(x.args) == 1:
+                x = x.args[0]
+            return isinstance(x, ast.Attribute) and isinstance(x.value, ast.Name) and x.value.id == "self"
+        return bool(defs) and all(isinstance(d.value, ast.ListComp) and len(d.value.generators) == 1 and isinstance(d.value.elt, ast.Name)
+                                  and isinstance(d.value.generators[0].target, ast.Name) and d.value.elt.id == d.value.generators[0].target.id
+                                  and pool_list(d.value.generators[0].iter) for d in defs)
+    if isinstance(e, ast.Attribute) and isinstance(e.value, ast.Name) and e.value.id == "self":
+        return e.attr in _NONNULL_FIELDS.get(id(fn), set())
+    if isinstance(e, ast.Name):
+        params = {a.arg for a in fn.args.args + fn.args.kwonlyargs}
+        if e.id in params:
+            return False
+        stores = [n for n in _own_nodes(fn) if isinstance(n, ast.Name) and isinstance(n.ctx, ast.Store) and n.id == e.id]
+        defs = [n for n in _own_nodes(fn) if isinstance(n, (ast.Assign, ast.AnnAssign)) and getattr(n, "value", None) is not None
+                and any(isinstance(t, ast.Name) and t.id == e.id for t in (n.targets if isinstance(n, ast.Assign) else [n.target]))]
+        return bool(defs) and len(defs) == len(stores) and all(_nonnull_expr(d.value, fn, nonnull_methods, depth + 1) for d in defs)
+    return False
+
+
+def _fold_none_tests(fn: T.Any, nonnull_methods: set[str]) -> None:
+    """`if None is not None: S` disappears, `if <non-null> is not None: S` becomes S (and the mirrored forms)."""
+    for b in list(_blocks(fn)):
+        i = 0
+        while i < len(b):
+            st = b[i]
+            nt = _none_test(st.test) if isinstance(st, ast.If) else None
+            if nt is not None:
+                x, is_none = nt
+                val: bool | None = None
+                if isinstance(x, ast.Constant) and x.value is None:
+                    val = is_none
+                elif _nonnull_expr(x, fn, nonnull_methods):
+                    val = not is_none
+                elif isinstance(x, ast.Name):
+                    # the binding that reaches the test in the same block
+                    for prev in reversed(b[:i]):
+                        if isinstance(prev, ast.Assign) and len(prev.targets) == 1 and isinstance(prev.targets[0], ast.Name) and prev.targets[0].id == x.id:
+                            if isinstance(prev.value, ast.Constant) and prev.value.value is None:
+                                val = is_none
+                            elif _nonnull_expr(prev.value, fn, nonnull_methods):
+                                val = not is_none
+                            elif isinstance(prev.value, ast.Name):
+                                x = prev.value          # a copy: follow it further back
+                                continue
+                            break
+                        if any(isinstance(y, ast.Name) and y.id == x.id and isinstance(y.ctx, (ast.Store, ast.Del)) for y in ast.walk(prev)):
+                            break
+                if val is not None:
+                    taken = st.body if val else st.orelse
+                    b[i:i + 1] = taken
+                    if not b:
+                        b.append(ast.copy_location(ast.Pass(), st))
+                    continue
+            i += 1
+
+
+def _drop_implied_asserts(fn: T.Any) -> None:
+    """`if T: assert T; ...` - an assertion that repeats the test of the branch it opens (nothing but quiet statements - no call,
+    no await, no store - in between) cannot fail and is dropped; it is what an inlined helper's own precondition check becomes."""
+    def quiet(st: ast.stmt) -> bool:
+        return isinstance(st, (ast.Assign, ast.AnnAssign, ast.Pass, ast.Expr)) and not any(isinstance(x, (ast.Call, ast.Await, ast.Yield, ast.YieldFrom)) for x in ast.walk(st)) \
+            and not any(isinstance(x, ast.Attribute) and isinstance(x.ctx, ast.Store) for x in ast.walk(st))
+    for n in list(_own_nodes(fn)):
+        if isinstance(n, ast.If):
+            want = _norm(n.test)
+            for j, st in enumerate(n.body):
+                if isinstance(st, ast.Assert) and _norm(st.test) == want:
+                    del n.body[j]
+                    if not n.body:
+                        n.body.append(ast.copy_location(ast.Pass(), n))
+                    break
+                if not quiet(st):
+                    break
+
+
+def _leaves(st: ast.If) -> list[list[ast.stmt]] | None:
+    """The branch statement lists of an if / elif / else tree that fall through to the statement after it (None if the tree has
+    an implicit empty else)."""
+    out: list[list[ast.stmt]] = []
+    for br in (st.body, st.orelse):
+        if not br:
+            return None
+        if _always_exits(br):
+            continue
+        if isinstance(br[-1], ast.If):
+            sub = _leaves(br[-1])
+            if sub is None:
+                out.append(br)
+            else:
+                out.extend(sub)
+        else:
+            out.append(br)
+    return out
+
+
+def _sink_none_test(fn: T.Any) -> bool:
+    """`if A: v = E1 else: v = None` followed by `if v is not None: S`  ->  the test moves into the branches and folds where
+    the branch has just bound v to None (the shape an inlined `return None` / `return x` helper leaves behind)."""
+    changed = False
+    for b in list(_blocks(fn)):
+        i = 0
+        while i + 1 < len(b):
+            tree, tst = b[i], b[i + 1]
+            nt = _none_test(tst.test) if isinstance(tst, ast.If) else None
+            if isinstance(tree, ast.If) and nt is not None and isinstance(nt[0], ast.Name):
+                v = nt[0].id
+                leaves = _leaves(tree)
+                def last_bind(leaf: list[ast.stmt]) -> ast.expr | None:
+                    for st in reversed(leaf):
+                        if isinstance(st, ast.Assign) and len(st.targets) == 1 and isinstance(st.targets[0], ast.Name) and st.targets[0].id == v:
+                            return st.value
+                        if any(isinstance(x, ast.Name) and x.id == v and isinstance(x.ctx, ast.Store) for x in ast.walk(st)):
+                            return None
+                    return None
+                if leaves and any(isinstance(last_bind(lf), ast.Constant) and last_bind(lf).value is None for lf in leaves) \
+                        and sum(1 for _ in ast.walk(tst)) <= 200:
+                    for lf in leaves:
+                        lf.append(_clone(tst))
+                    del b[i + 1]
+                    changed = True
+                    continue
+            i += 1
+    if changed:
+        # fold `v is [not] None` directly after `v = None`
+        for b in list(_blocks(fn)):
+            i = 1
+            while i < len(b):
+                prev, st = b[i - 1], b[i]
+                nt = _none_test(st.test) if isinstance(st, ast.If) else None
+                if nt is not None and isinstance(nt[0], ast.Name) and isinstance(prev, ast.Assign) and len(prev.targets) == 1 and isinstance(prev.targets[0], ast.Name) \
+                        and prev.targets[0].id == nt[0].id and isinstance(prev.value, ast.Constant) and prev.value.value is None:
+                    taken = st.body if nt[1] else st.orelse
+                    b[i:i + 1] = taken
+                    continue
+                i += 1
+    return changed
+
+
 def canonicalise(tree: ast.Module, known_globals: set[str] | None = None) -> None:
     _module_constants(tree, known_globals)
     _Small().visit(tree)
@@ -585,6 +993,42 @@ def canonicalise(tree: ast.Module, known_globals: set[str] | None = None) -> Non
         for m in c.body:
             if isinstance(m, FUNC_KINDS):
                 mutable[id(m)] = fields
+    nullable: set[str] = set()
+    declared: set[str] = set()
+    for m in [n for n in ast.walk(tree) if isinstance(n, FUNC_KINDS)]:
+        if m.returns is not None:
+            txt = ast.unparse(m.returns)
+            (nullable if ("None" in txt or "Optional" in txt or "Any" in txt or "object" in txt) else declared).add(m.name)
+        else:
+            nullable.add(m.name)
+    nonnull_methods = declared - nullable
+    _NONNULL_FIELDS.clear()
+    for c in [n for n in ast.walk(tree) if isinstance(n, ast.ClassDef)]:
+        init = next((m for m in c.body if isinstance(m, FUNC_KINDS) and m.name == "__init__"), None)
+        if init is None:
+            continue
+        ann = {a.arg: ast.unparse(a.annotation) for a in init.args.args + init.args.kwonlyargs if a.annotation is not None}
+        defaults = dict(zip([a.arg for a in init.args.args][len(init.args.args) - len(init.args.defaults):], init.args.defaults))
+        written_elsewhere = mutable.get(id(init), set())
+        ok_fields: set[str] = set()
+        writes: dict[str, list[ast.AST]] = {}
+        for st in ast.walk(init):
+            if isinstance(st, (ast.Assign, ast.AnnAssign)) and getattr(st, "value", None) is not None:
+                for t in (st.targets if isinstance(st, ast.Assign) else [st.target]):
+                    if isinstance(t, ast.Attribute) and isinstance(t.value, ast.Name) and t.value.id == "self":
+                        writes.setdefault(t.attr, []).append(st.value)
+        for fld, vals in writes.items():
+            if fld in written_elsewhere or len(vals) != 1:
+                continue
+            v = vals[0]
+            if isinstance(v, ast.Name) and v.id in ann and not any(w in ann[v.id] for w in ("None", "Optional", "Any", "object")) \
+                    and not (isinstance(defaults.get(v.id), ast.Constant) and defaults[v.id].value is None):
+                ok_fields.add(fld)
+            elif _nonnull_expr(v, init, nonnull_methods):
+                ok_fields.add(fld)
+        for m in c.body:
+            if isinstance(m, FUNC_KINDS):
+                _NONNULL_FIELDS[id(m)] = ok_fields
     for fn in [n for n in ast.walk(tree) if isinstance(n, FUNC_KINDS)]:
         _aliases(fn, mutable.get(id(fn)))
         for b in list(_blocks(fn)):
@@ -592,7 +1036,20 @@ def canonicalise(tree: ast.Module, known_globals: set[str] | None = None) -> Non
             _split_tuple_assign(b)
             _flag_loops(b)
             _rotate_priming(b)
+        _merge_identical_branches(fn)
+        _distribute_tuple_local(fn)
+        _hoist_common_tail_return(fn)
         _return_in_loop_to_break(fn)
+        _search_loops(fn)
+        _fuse_comprehensions(fn)
+        _drop_implied_asserts(fn)
+        _fold_none_tests(fn, nonnull_methods)
+        for _ in range(4):
+            if not _sink_none_test(fn):
+                break
+            _fold_none_tests(fn, nonnull_methods)
+            fn.body = _guard_clauses(fn.body, True, False) or [ast.Pass()]
+            _aliases(fn, mutable.get(id(fn)))
         _ifelse_temp_to_expr(fn)
         _collapse_generated_temps(fn)
     ast.fix_missing_locations(tree)
